@@ -148,6 +148,19 @@ OnlyNamedTouched ==
   mode = "apply" /\ Len(rules) = 1 /\ rules[1].act # "prefix"
      => \A ln \in Names \ {LowerSeq(rules[1].name)} : Values(Out, ln) = Values(hdr, ln)
 
+(* ---------------- dispatch by message kind (command/run configureHeadersModifiers) ---------------- *)
+\* which of the three rule lists are configured, and the marker field each list adds
+Marker(k) == CASE k = "req" -> <<"x","-","b">> [] k = "con" -> <<"a","b">> [] k = "res" -> <<"a","b","c">>
+DCases == [kind : {"request", "connect", "response", "connect-response"}, req : BOOLEAN, con : BOOLEAN, res : BOOLEAN]
+RL(on, k) == IF on THEN << Rule("add", Marker(k), <<"v">>) >> ELSE <<>>
+DOut(c) == Dispatch(c.kind, RL(c.req, "req"), RL(c.con, "con"), RL(c.res, "res"), <<>>)
+\* names of the markers the message must carry after processing
+DMarkers(c) == { k \in {"req", "con", "res"} : \E i \in 1..Len(DOut(c)) : DOut(c)[i].n = LowerSeq(Marker(k)) }
+DispatchSane == \A c \in DCases : /\ (c.kind = "connect-response" => DMarkers(c) = {})
+                                   /\ Cardinality(DMarkers(c)) <= 1
+DispatchSaneInv == DispatchSane
+EmitDispatch == \A c \in DCases : PrintT(ToJson([dispatch |-> c, markers |-> DMarkers(c)]))
+
 EmitParse == mode = "parse" => PrintT(ToJson([s |-> s, doc |-> Doc(s)]))
 EmitApply == mode = "apply" =>
   PrintT(ToJson([rules |-> [i \in 1..Len(rules) |-> Show(rules[i])], hdr |-> hdr,
